@@ -116,7 +116,10 @@ def ex_prim(ctx, fn, lam, w, meta=True, layout="C"):
     for w2, lab in ((numpy.minimum(w, 1), "min(w,1)"), (w * 3, "3w")):
         ok2, v, tb = ctx.call(f, lam, w2)
         ctx.mon("metamorphic:activity-only", 1)
-        if ok2 and not (float(v) == float(base) or (math.isnan(float(v)) and math.isnan(float(base)))):
+        if not ok2:
+            ctx.violate("score changes with event counts although the active set is the same",
+                        {"exec": "prim", "args": {"fn": fn, "lam": lam, "w": w}}, observed={"base": float(base), lab: repr(v)}, tags={"fn": fn, "meta": lab, "raised": True})
+        elif not (float(v) == float(base) or (math.isnan(float(v)) and math.isnan(float(base)))):
             ctx.violate("score changes with event counts although the active set is the same",
                         {"exec": "prim", "args": {"fn": fn, "lam": lam, "w": w}}, observed={"base": float(base), lab: float(v)}, tags={"fn": fn, "meta": lab})
 
@@ -226,6 +229,8 @@ def ex_maps(ctx, case):
         ref = numpy.array([k * math.log(l) - l - math.lgamma(k + 1) for l, k in zip(lam, ws)])
         if not numpy.allclose(numpy.asarray(poll, dtype=float), ref, rtol=1e-9, atol=1e-12):
             ctx.violate("poisson per-cell map != definition", rc, observed=numpy.asarray(poll)[:6], expected=ref[:6], tags={"fn": "poll"})
+    else:
+        ctx.violate("poisson per-cell map raised", rc, observed=repr(poll), tags={"fn": "poll"})
     ctx.count(2)
 
 
